@@ -11,8 +11,12 @@ env = dict(os.environ, CARGO_TARGET_DIR=os.path.join(wt, "target"), CARGO_NET_OF
 demo = os.path.join(wt, "fast-tlsh", "tests", f"demo_{pid.lower()}.rs")
 aside = demo + ".aside"
 
-def sh(cmd, cwd=wt):
-    p = subprocess.run(cmd, cwd=cwd, env=env, stdout=subprocess.PIPE, stderr=subprocess.STDOUT, text=True)
+demo_env = dict(env)
+if os.environ.get("DEMO_RUSTFLAGS"):
+    demo_env["RUSTFLAGS"] = os.environ["DEMO_RUSTFLAGS"]
+
+def sh(cmd, cwd=wt, e=None):
+    p = subprocess.run(cmd, cwd=cwd, env=e or env, stdout=subprocess.PIPE, stderr=subprocess.STDOUT, text=True)
     return p.returncode, p.stdout
 
 res = {}
@@ -30,17 +34,17 @@ if os.path.exists(aside):
     shutil.move(aside, demo)
 # 2. demo with the change
 cmd = ["cargo", "test", "--offline", "-p", "fast-tlsh", "--test", f"demo_{pid.lower()}"] + extra
-rc, out = sh(cmd)
+rc, out = sh(cmd, e=demo_env)
 res["demo_with_change_rc"] = rc
 res["demo_with_change"] = [l for l in out.splitlines() if l.startswith("test result") or "error" in l.lower()][:5]
 # 3. demo without the change
 sh(["git", "stash", "push", "--", "fast-tlsh/src"])
 try:
-    rc, out = sh(cmd)
+    rc, out = sh(cmd, e=demo_env)
     res["demo_without_change_rc"] = rc
     res["demo_without_change"] = [l for l in out.splitlines() if l.startswith("test result") or "error" in l.lower()][:5]
 finally:
     sh(["git", "stash", "pop"])
 res["confirmed"] = (res["baseline_with_change_rc"] == 0 and res["demo_with_change_rc"] != 0 and res["demo_without_change_rc"] == 0)
-res["demo_cmd"] = " ".join(cmd)
+res["demo_cmd"] = (("RUSTFLAGS='" + os.environ["DEMO_RUSTFLAGS"] + "' ") if os.environ.get("DEMO_RUSTFLAGS") else "") + " ".join(cmd)
 print(json.dumps(res, indent=1))
